@@ -3,7 +3,11 @@
 Translated, from traits/adaptation/adaptation_manager.py of the working tree:
   * `AdaptationManager.provides_protocol`, `AdaptationManager.mro_distance_to_protocol` (static methods),
   * `AdaptationManager._adapt` (the priority-queue search), `AdaptationManager._get_applicable_offers`,
-  * the module-level edge comparison `_by_weight_then_from_protocol_specificity`.
+  * the module-level edge comparison `_by_weight_then_from_protocol_specificity`,
+  * the entry points `AdaptationManager.adapt` (its default value `default=AdaptationError` is emitted as
+    `adaptDefault`), `supports_protocol`, `register_offer`.
+Any attribute of `self` other than `_adaptation_offers` (`.items()` / `.setdefault(name, [])`) and the translated
+methods is outside the subset: new state on the manager (a cache, a counter) makes the translator fail.
 Emits Generated/AdaptProg.lean: one `Stmt` definition per loop body (`<fn>Loop<k>`, numbered in source
 order within the function), one per function body, and the program `adaptProg`.  Lemmas/AdaptSource.lean and
 Props/C17.lean prove that `Model.Adapt.adaptInner` is the interpretation of these terms.
@@ -27,14 +31,19 @@ import sys
 TARGET = "AdaptProg.lean"
 
 CLASS = "AdaptationManager"
-METHODS = ["provides_protocol", "mro_distance_to_protocol", "_adapt", "_get_applicable_offers"]
+METHODS = ["provides_protocol", "mro_distance_to_protocol", "_adapt", "_get_applicable_offers",
+           "adapt", "supports_protocol", "register_offer"]
+EFFECTFUL = {"_adapt", "adapt"}          # translated methods that may call factories: called with `callEff`
+GLOBALS = {"AdaptationError", "_MISSING"}  # module-level singletons compared with `is`
+EXCS = {"AdaptationError": ".adaptationError"}
 STATIC = {"provides_protocol", "mro_distance_to_protocol"}
 MODULE_FUNCS = ["_by_weight_then_from_protocol_specificity"]
 LEAN_NAME = {"provides_protocol": "providesProtocol", "mro_distance_to_protocol": "mroDistance",
              "_adapt": "adapt", "_get_applicable_offers": "applicableOffers",
+             "adapt": "adaptEntry", "supports_protocol": "supportsProtocol", "register_offer": "registerOffer",
              "_by_weight_then_from_protocol_specificity": "byWeight"}
 BUILTINS = {"issubclass": 2, "type": 1, "len": 1}
-OFFER_ATTRS = ("from_protocol", "to_protocol")
+OFFER_ATTRS = ("from_protocol", "to_protocol", "from_protocol_name")
 
 
 class Unknown(Exception):
@@ -64,6 +73,13 @@ def is_sort_call(n):
             and is_name(k.func.value, "functools") and len(k.args) == 1 and not k.keywords and is_name(k.args[0]))
 
 
+def is_setdefault_call(n):
+    """self._adaptation_offers.setdefault(k, [])"""
+    return (is_method_call(n, "setdefault", 2) and isinstance(n.func.value, ast.Attribute)
+            and n.func.value.attr == "_adaptation_offers" and is_name(n.func.value.value, "self")
+            and isinstance(n.args[1], ast.List) and not n.args[1].elts)
+
+
 def mutated_name(call):
     """The local list a call statement / expression mutates, or None."""
     if is_method_call(call, "append", 1) and is_name(call.func.value):
@@ -82,8 +98,13 @@ class Fn:
         self.fn = fn
         self.arity = arity                    # name -> number of parameters of every translated function
         a = fn.args
-        if a.kwarg or a.vararg or a.posonlyargs or a.kwonlyargs or a.defaults:
+        if a.kwarg or a.vararg or a.posonlyargs or a.kwonlyargs:
             raise Unknown("%s: parameter list shape" % fn.name)
+        self.defaults = []
+        for d in a.defaults:
+            if not (is_name(d) and d.id in GLOBALS):
+                raise Unknown("%s: default value %s" % (fn.name, ast.dump(d)[:60]))
+            self.defaults.append(d.id)
         names = [x.arg for x in a.args]
         if is_method:
             if not names or names[0] != "self":
@@ -128,7 +149,7 @@ class Fn:
                 v = n.value
                 fresh = isinstance(v, ast.List) or (
                     isinstance(v, ast.Call) and isinstance(v.func, ast.Attribute) and is_name(v.func.value, "self")
-                    and v.func.attr in self.arity)
+                    and v.func.attr in self.arity) or is_setdefault_call(v)
                 if fresh:
                     allowed.add(id(n.targets[0]))
         for n in ast.walk(fn):
@@ -166,6 +187,8 @@ class Fn:
         if isinstance(n, ast.Name):
             if n.id in self.slots:
                 return "(.var %d)" % self.slots[n.id]
+            if n.id in GLOBALS:
+                return '(.glob "%s")' % n.id
             raise Unknown("name %s used before assignment" % n.id)
         if isinstance(n, ast.Tuple):
             if any(isinstance(e, ast.Starred) for e in n.elts):
@@ -233,6 +256,11 @@ class Fn:
                         raise Unknown("%s.%s is not a static method" % (CLASS, f.attr))
                     if len(n.args) != self.arity[f.attr]:
                         raise Unknown("%s called with %d arguments" % (f.attr, len(n.args)))
+                    if f.attr in EFFECTFUL:
+                        args = self.seq(n.args)
+                        t = self.temp()
+                        self.pre.append('(.callEff %d "%s" %s)' % (t, f.attr, args))
+                        return "(.var %d)" % t
                     return '(.call "%s" %s)' % (f.attr, self.seq(n.args))
                 if (f.attr == "items" and not n.args and isinstance(f.value, ast.Attribute)
                         and f.value.attr == "_adaptation_offers" and is_name(f.value.value, "self")):
@@ -304,6 +332,9 @@ class Fn:
                     return ["(.heappop %d %d)" % (self.slot(t.id), q)]
                 tmp = self.temp()
                 return ["(.heappop %d %d)" % (tmp, q), "(.unpack %s (.var %d))" % (self.targets(t), tmp)]
+            if is_setdefault_call(v) and is_name(t):
+                k = self.ex(v.args[0])
+                return ["(.setdefaultBucket %d %s %s)" % (self.slot(t.id), k, self.ex(v.args[1]))]
             if is_method_call(v, "factory", 1) and is_name(t):
                 o = self.ex(v.func.value)
                 a = self.ex(v.args[0])
@@ -340,6 +371,22 @@ class Fn:
                 raise Unknown("effect in a while condition")
             body = self.loop_def("Loop", s.body)
             return ["(.whileS %s %s)" % (c, body)]
+        if isinstance(s, ast.Raise):
+            e = s.exc
+            if (s.cause is None and isinstance(e, ast.Call) and is_name(e.func) and e.func.id in EXCS
+                    and len(e.args) == 1 and not e.keywords):
+                m = e.args[0]
+                # the message is not observed, but building it must not be able to fail:
+                # a literal, or literal % (tuple of locals) with one conversion per item
+                ok = isinstance(m, ast.Constant) and isinstance(m.value, str)
+                if (isinstance(m, ast.BinOp) and isinstance(m.op, ast.Mod) and isinstance(m.left, ast.Constant)
+                        and isinstance(m.left.value, str) and isinstance(m.right, ast.Tuple)
+                        and all(is_name(x) and x.id in self.slots for x in m.right.elts)
+                        and m.left.value.count("%") == m.left.value.count("%r") == len(m.right.elts)):
+                    ok = True
+                if ok:
+                    return ["(.raiseExc %s)" % EXCS[e.func.id]]
+            raise Unknown("raise statement %s" % ast.dump(s)[:100])
         if isinstance(s, ast.Return):
             if s.value is None:
                 return ["(.ret .noneLit)"]
@@ -368,7 +415,7 @@ class Fn:
         out += ["def %sBody : Stmt :=\n      %s\n" % (ln, body)]
         row = '  ("%s", { nparams := %d, nslots := %d, body := %sBody })' % (
             self.fn.name, len(self.params), len(self.slots), ln)
-        return "\n".join(out), row
+        return "\n".join(out), row, self.defaults
 
 
 def emit(traits_dir):
@@ -400,6 +447,13 @@ def emit(traits_dir):
             for x in names:
                 if x in ("heappush", "heappop", "issubclass", "type", "len", "next", "inspect", "itertools", "functools"):
                     raise Unknown("module rebinds %s" % x)
+    missing_defs = [n for n in tree.body if isinstance(n, ast.Assign) and len(n.targets) == 1
+                    and is_name(n.targets[0], "_MISSING")]
+    if not (len(missing_defs) == 1 and is_call_of(missing_defs[0].value, "object", 0)):
+        raise Unknown("_MISSING is not a module-level `object()` assigned once")
+    if not any(isinstance(n, ast.ImportFrom) and n.module == "traits.adaptation.adaptation_error"
+               and [a.name for a in n.names if a.asname is None] == ["AdaptationError"] for n in tree.body):
+        raise Unknown("import of AdaptationError not found")
     imports = set()
     for n in tree.body:
         if isinstance(n, ast.Import):
@@ -424,9 +478,14 @@ def emit(traits_dir):
     rows = []
     for m in order:
         fn, is_method = found[m]
-        text, row = Fn(fn, arity, is_method).emit()
+        text, row, dflts = Fn(fn, arity, is_method).emit()
         lines.append(text)
         rows.append(row)
+        if m == "adapt":
+            if len(dflts) != 1:
+                raise Unknown("adapt: %d default values" % len(dflts))
+            lines.append("/-- the default value of `adapt`'s parameter `default` (a module-level singleton) -/\n"
+                         'def adaptDefault : String := "%s"\n' % dflts[0])
     lines += ["/-- the translated functions of adaptation_manager.py -/", "def adaptProg : Prog := [",
               ",\n".join(rows), "]", "", "end TraitsVerif.Generated.AdaptProg"]
     return "\n".join(lines) + "\n"
